@@ -85,7 +85,12 @@ def modify(root, name, clock, rng):
 def run_history(rng):
     with tempfile.TemporaryDirectory(dir="/var/tmp") as tmp:
         root = os.path.join(tmp, "repo")
-        os.makedirs(root)
+        if rng.random() < 0.3:
+            # the repository is reached through a symlinked directory (~/repo -> /disk2/projects/repo); every caller uses that prefix
+            os.makedirs(os.path.join(tmp, "disk2", "projects", "repo"))
+            os.symlink(os.path.join(tmp, "disk2", "projects", "repo"), root)
+        else:
+            os.makedirs(root)
         state = State(root, os.path.join(tmp, "state"))
         clock = [int(time.time()) - 5_000_000]
         recorded, dirty, log = set(), set(), []
@@ -154,7 +159,7 @@ def main():
             failures.append({"problems": [f"raised {type(e).__name__}: {str(e)[:120]}"]})
         evals += 1
     print(json.dumps({"evaluations": evals, "distinct_nontrivial": evals, "n_failures": len(failures), "failures": failures[:4],
-                      "bound": f"{n} seeded histories of <= 12 operations (make/record/modify/remove) over 6 paths (files, directories, nested), then one clean-up"}))
+                      "bound": f"{n} seeded histories of <= 12 operations (make/record/modify/remove) over 6 paths (files, directories, nested), then one clean-up; in 3 of 10 the repository root is a symlink"}))
 
 
 if __name__ == "__main__":
